@@ -31,7 +31,7 @@ CHECK_DEADLOCK FALSE
 ASSUME = [
     "harness/drive_isolation.cpp: the observed run and the solo runs of an execution each start in a fresh forked child of a process that never called the library; hook H1 (per-instance tap) sees every register write / period",
     "PCM and tap streams are compared through 64-bit FNV-1a hashes (a collision would hide a difference)",
-    "freshly allocated C++ memory is filled with 0x00 (observed run, solo run 1) / one of 0xA5 0xB4 0x28 0xFF 0x4C (solo run 2, by execution) by the harness's operator new (glibc M_PERTURB for malloc outside AddressSanitizer): dependence on uninitialised heap memory shows as a determinism failure; uninitialised stack reads are not provoked",
+    "freshly allocated C++ memory is filled with 0x00 (observed run, solo run 1) / a fixed varying byte sequence (solo run 2) by the harness's operator new (glibc M_PERTURB for malloc outside AddressSanitizer): dependence on uninitialised heap memory shows as a determinism failure; uninitialised stack reads are not provoked",
     "thorough tier: ThreadSanitizer (clang 14) is the race oracle; calls of one round run concurrently, a barrier separates rounds, so only same-round accesses can be reported",
     "TLC 1.8 evaluates Isolation/IsolationTrace correctly",
 ]
@@ -134,7 +134,10 @@ def check_c14(pid, tier, replay):
         ("exhaustive_interleavings", gi.exhaustive_executions(q, vc.seed()) if q else
             [h for a in gi.EMUS for b in gi.EMUS for h in gi.pair_executions(a, b)] +
             [h for (a, b) in [(4, 4), (4, 5), (5, 4), (4, 2), (0, 4), (2, 2), (5, 5), (4, 0), (2, 4)] for h in gi.lfo_pair_executions(a, b)] +
-            [h for (a, b, c) in [(1, 8, 4), (8, 4, 1), (4, 1, 8), (0, 2, 5), (3, 6, 2), (2, 5, 0)] for h in gi.triple_executions(a, b, c, 8, vc.seed())]),
+            [h for (a, b, c) in [(1, 8, 4), (8, 4, 1), (4, 1, 8), (0, 2, 5), (3, 6, 2), (2, 5, 0)] for h in gi.triple_executions(a, b, c, 8, vc.seed())] +
+            [h for (a, b) in [(0, 0), (0, 2), (2, 0), (4, 5), (3, 6), (1, 1), (5, 4), (6, 3)] for h in gi.family_pair_executions(a, b)] +
+            [h for (a, b) in [(0, 0), (0, 2), (4, 5), (1, 8), (3, 6)] for h in gi.port_pair_executions(a, b)] +
+            [h for e in gi.EMUS for h in gi.burst_executions(e)]),
         ("determinism_probes", gi.determinism_probes()),
         ("random_interleavings", [gi.random_execution(rng) for _ in range(260 if q else 4000)]),
         ("threaded_no_detector", [gi.par_pair(a, a) for a in gi.EMUS] + [gi.par_many(rng, n) for n in (2, 3, 5, 8)]),
